@@ -48,7 +48,7 @@ def close(a, b, rel=1e-6, ab=1e-9):
 class C17(Property):
     ID = "C17"
     SESSIONS = ["s0", "s1"]
-    RUNS = {"quick": (350, 300), "thorough": (8000, 6000)}
+    RUNS = {"quick": (1500, 1500), "thorough": (30000, 30000)}
 
     def config(self, rng, tier, faulty):
         cfg = {
